@@ -263,6 +263,12 @@ var c10Seed = []world.Op{
 	opBlock(1),
 }
 
+// c10LateSeed: the warm-up asset has started (while an asset warms up the module re-queues a rebalance in every block,
+// which hides a missed trigger) and V2 - native stake only - sits jailed outside the active set.
+func c10LateSeed() []world.Op {
+	return append(append([]world.Op{}, c10Seed...), opBlock(3), opBlock(1), world.Op{K: world.KJail, V: 2}, opBlock(1))
+}
+
 func c10Ops(tier string, withRewards bool) func(n *engine.Node) []world.Op {
 	return func(n *engine.Node) []world.Op {
 		var ops []world.Op
@@ -279,6 +285,10 @@ func c10Ops(tier string, withRewards bool) func(n *engine.Node) []world.Op {
 			world.Op{K: world.KNRedelegateAll, D: 99, V: 1, V2: 2, Class: ClsEnv},
 			world.Op{K: world.KJail, V: 0, Class: ClsEnv},
 			world.Op{K: world.KUnjail, V: 0, Class: ClsEnv},
+			// V2 carries native stake only (unless somebody delegates to it): its leaving and re-entering the active set
+			// changes the total bonded amount every other validator's target is computed from
+			world.Op{K: world.KJail, V: 2, Class: ClsEnv},
+			world.Op{K: world.KUnjail, V: 2, Class: ClsEnv},
 			world.Op{K: world.KMaxVals, Amt: "2", Class: ClsEnv},
 			world.Op{K: world.KMaxVals, Amt: "3", Class: ClsEnv},
 		)
@@ -312,7 +322,7 @@ func init() {
 			mk := func(name string, budgets []int, depth int) *engine.Scenario {
 				return &engine.Scenario{
 					Property: "C10", Name: name, Cfg: c10Config(), Stores: world.AllStores,
-					Seeds: [][]world.Op{c10Seed}, ClassNames: classNames, Budgets: budgets, MaxDepth: depth,
+					Seeds: [][]world.Op{c10Seed, c10LateSeed()}, ClassNames: classNames, Budgets: budgets, MaxDepth: depth,
 					Ops: c10Ops(tier, false), Step: c10Step, SeedStep: true,
 					Required: []string{"block.quiet", "block.with_positive_target", "block.with_non_bonded_validator", "block.with_exchange_rate_not_1", "block.with_staked_warmup_asset", "native.full_exit", "real_slash", "jail", "max_validators_changed", "block.with_scheduled_weight_change"},
 				}
